@@ -7,7 +7,9 @@ import (
 	"io"
 	"io/fs"
 	"os"
+	"path/filepath"
 	"sync"
+	"syscall"
 	"time"
 
 	"github.com/spf13/afero"
@@ -32,6 +34,10 @@ type recFs struct {
 	// chunk > 0: a Read on a file delivers at most that many bytes per call (a filesystem is free to: pipes, FUSE,
 	// network filesystems), without an error
 	chunk int
+	// noParents: the filesystem does not create missing directories on its own, as the machine's own filesystems (and
+	// afero's OsFs / BasePathFs over them) do not: an OpenFile with O_CREATE of a path whose directory does not exist
+	// fails with a not-exist error (afero's MemMapFs would silently create the directory)
+	noParents bool
 }
 
 var errInjected = errors.New("injected fault")
@@ -72,12 +78,15 @@ func (r *recFs) err() error { return injectedErr(r.kind) }
 func newRecFs(inner afero.Fs) *recFs { return &recFs{inner: inner, name: "MemMapFS", faultK: -1} }
 
 // step records a call and reports whether it must fail
-func (r *recFs) step(s string) bool {
+func (r *recFs) step(s string) bool { return r.stepF(s, false) }
+
+// stepF is step for a call that fails for a reason of its own (force)
+func (r *recFs) stepF(s string, force bool) bool {
 	r.mu.Lock()
 	defer r.mu.Unlock()
 	k := r.n
 	r.n++
-	fail := k == r.faultK
+	fail := k == r.faultK || force
 	if fail {
 		s += "!"
 	}
@@ -86,8 +95,10 @@ func (r *recFs) step(s string) bool {
 }
 
 // stepAt is step for a call that belongs to one file
-func (r *recFs) stepAt(path, s string) bool {
-	fail := r.step(s)
+func (r *recFs) stepAt(path, s string) bool { return r.stepAtF(path, s, false) }
+
+func (r *recFs) stepAtF(path, s string, force bool) bool {
+	fail := r.stepF(s, force)
 	if fail {
 		s += "!"
 	}
@@ -136,7 +147,16 @@ func (r *recFs) Open(name string) (afero.File, error) {
 	return r.wrap(f, name), nil
 }
 func (r *recFs) OpenFile(name string, flag int, perm os.FileMode) (afero.File, error) {
-	if r.stepAt(name, fmt.Sprintf("openfile(%s,%d,%d)", name, flag, perm)) {
+	missing := false
+	if r.noParents && flag&os.O_CREATE != 0 {
+		if fi, serr := r.inner.Stat(filepath.Dir(name)); serr != nil || !fi.IsDir() {
+			missing = true
+		}
+	}
+	if r.stepAtF(name, fmt.Sprintf("openfile(%s,%d,%d)", name, flag, perm), missing) {
+		if missing {
+			return nil, &os.PathError{Op: "open", Path: name, Err: syscall.ENOENT}
+		}
 		return nil, r.err()
 	}
 	f, err := r.inner.OpenFile(name, flag, perm)
